@@ -275,6 +275,7 @@ def _rand_case(rnd, tier):
     faults = []
     if rnd.random() < 0.25:
         faults = sorted({(rnd.choice(['open', 'lock', 'unlock', 'close']), rnd.randint(0, 5)) for _ in range(rnd.randint(1, 2))})
+        faults = [f + ('ki',) if rnd.random() < 0.3 else f for f in faults]      # interrupt flavour
     return mk(cfg, progs, sched, faults)
 
 
